@@ -58,6 +58,7 @@ func TestVerifC03Concurrent(t *testing.T) {
 		"while other callers sign with and delete the keys of the previous round; many rounds, FREE-RUNNING (the interleavings are not enumerated). Oracle: a creation that reported success published P for key id K: every signature " +
 		"made for K verifies with P and with no other key of the round, Resolve(K) is P, the private key stored under K's name belongs to P. A case = (back-end, level, round)")
 	r.Assume("schedules are sampled, not enumerated: the fs / HTTP back-ends offer no scheduling points to a controlled scheduler; this part can only find, not exclude, interleaving defects")
+	r.NotExhaustive("part concurrent: interleavings of the key-store callers are free-running (sampled), not enumerated; every other part of C03 enumerates its space")
 	r.Bound("concurrent_callers", workers)
 	ctx := audit.TestContext()
 	created, failed := 0, 0
